@@ -30,6 +30,7 @@ type c02In struct {
 	Edits     [][]c02Edit   `json:"edits"`      // multi-octet edits
 	Exts      []model.Bytes `json:"extensions"` // octets appended
 	AllFlips  bool          `json:"all_flips"`
+	Warm      bool          `json:"receiver_has_accepted_the_genuine_message_before"`
 }
 
 // spySA builds a receiver SA whose cipher and integrity objects are spies sharing one log.
@@ -50,6 +51,8 @@ type c02Ctx struct {
 	in      c02In
 	recvI   bool
 	classes map[string]int
+	// warm: the receiver object first accepts this genuine message (as a real receiver has, before an altered copy arrives)
+	warm []byte
 }
 
 // tryAltered offers one altered byte string x (!= every genuine message) to the receiver and judges the outcome.
@@ -63,6 +66,12 @@ func (cx *c02Ctx) tryAltered(x []byte, class string, keys bridge.KeySet, recvI b
 		sa, log, err := spySA(cx.in.Suite, keys)
 		if err != nil {
 			return fmt.Errorf("HARNESS: %v", err)
+		}
+		if cx.warm != nil && recvI == cx.recvI {
+			if _, werr := libUnprotect(cx.warm, sa, recvI, withHdr); werr == nil {
+				class = class + "(after-genuine)"
+			}
+			log.Events = nil
 		}
 		got, err := libUnprotect(x, sa, recvI, withHdr)
 		if probe.IsPanic(err) {
@@ -123,6 +132,9 @@ func c02Oracle(in c02In) probe.Outcome {
 	}
 	recvI := !in.SendI
 	cx := &c02Ctx{in: in, recvI: recvI, classes: map[string]int{}}
+	if in.Warm {
+		cx.warm = w
+	}
 	icv := in.Suite.Ref().Integ.OutLen
 
 	// the genuine message: accepted, MAC over the received bytes verified before the one Decrypt call
@@ -322,6 +334,9 @@ func c02Oracle(in c02In) probe.Outcome {
 	if in.AllFlips {
 		labels = append(labels, "all-bit-flips")
 	}
+	if in.Warm {
+		labels = append(labels, "receiver-accepted-the-genuine-message-first")
+	}
 	return probe.Outcome{NonTrivial: true, Labels: labels, Counts: counts}
 }
 
@@ -356,6 +371,7 @@ var c02Tamper = probe.Define("C02", "tamper", func(t *rapid.T) c02In {
 		{0, 0, 0, 8, 1, 2, 3, 4}, // a skippable payload with a body
 	}
 	in.AllFlips = model.ChainSize(in.Msg.Payloads) <= 500
+	in.Warm = rapid.Bool().Draw(t, "warm")
 	return in
 }, c02Oracle)
 
